@@ -302,7 +302,6 @@ func runC06(b *runner.Batch) {
 		e.checkNetmapState(nil)
 	}
 
-
 	// a subscriber that calls back into newEpoch from inside its callback (the carrier is Alphabet-witnessed with Global
 	// scope, so the nested call is witnessed too). The outer tick has stored its epoch before it notifies anybody, so a
 	// nested newEpoch(ep+d) is a tick of its own iff d >= 1 and makes the whole transaction fail otherwise (seeded change
